@@ -3,6 +3,7 @@ package main
 import (
 	"fmt"
 	"go/ast"
+	"go/constant"
 	"go/token"
 	"go/types"
 	"reflect"
@@ -414,7 +415,7 @@ func ruleJSONRawString(c *Ctx) {
 				}
 			}
 		}
-		if len(params) == 0 || obj.Name() == "appendString" {
+		if esc := p.jsonEscaper(); len(params) == 0 || (esc != nil && obj == esc.Obj) {
 			continue
 		}
 		n++
@@ -716,7 +717,7 @@ func ruleTagRun(c *Ctx) {
 	if f == nil {
 		c.Oblige("G.errorfirst", false, token.NoPos, "cmd/plenctag.run", "function", "not found", nil)
 	} else {
-		var rewriteErr ssa.Value
+		var rewriteErr *ssa.Extract
 		var formatCall *ssa.Call
 		for _, b := range f.Blocks {
 			for _, in := range b.Instrs {
@@ -742,7 +743,15 @@ func ruleTagRun(c *Ctx) {
 		}
 		ok := false
 		if rewriteErr != nil && formatCall != nil {
-			ok = nonNilAtInverseVal(f, rewriteErr, formatCall.Block())
+			// what can follow the rewrite call when its error is not nil: the
+			// format call must not be among it, however the test is written
+			fe := feasibleFrom(f, rewriteErr.Block(), true, func(v ssa.Value) (constant.Value, bool) {
+				if v == rewriteErr {
+					return feasNonNil, true
+				}
+				return nil, false
+			})
+			ok = !fe.reach[formatCall.Block()]
 		}
 		c.Oblige("G.errorfirst", ok, f.Pos(), "cmd/plenctag.run", "nothing is written when rewriting reported an error",
 			"a file with a malformed tag is only partially numbered (the maximum scan skipped it): writing that result produces duplicate indexes; format must run only on the err == nil branch of rewrite", nil)
